@@ -670,3 +670,41 @@ func verifTwoMessages(prop string) {
 
 func verif_C04_two_messages() { verifTwoMessages("C04") }
 func verif_C04_data_timeout() { verifDataTimeout("C04") }
+
+// verif_C04_after_chunk: a chunk followed, in the same network read, by n
+// complete command lines that are short each but together longer than
+// MaxLineLength: every one of them gets its own reply, none is refused for a
+// length it does not have, and the connection stays open for what follows in
+// the next read.
+func verif_C04_after_chunk() {
+	n := nondetInt(1, 6)
+	be := &vbackend{}
+	s, lg := verifServer(be)
+	s.MaxLineLength = 24
+	first := "EHLO c\r\nMAIL FROM:<s@v>\r\nRCPT TO:<r@v>\r\n"
+	second := "BDAT 2 LAST\r\nab"
+	for i := 0; i < n; i++ {
+		second += "NOOP\r\n"
+	}
+	third := "RSET\r\nQUIT\r\n"
+	in := first + second + third
+	vc := &vconn{in: []byte(in), final: io.EOF}
+	// the chunk command, the chunk and the n lines arrive in ONE read
+	vc.cuts = []int{len(first), len(first) + len(second)}
+	if nondetBool() {
+		vc.cuts = append(vc.cuts, len(first)+len("BDAT 2 LAST\r\n"))
+	}
+	c := newConn(vc, s)
+	s.handleConn(c)
+	verifSettle()
+	reps, wf := verifParseReplies(vc.out)
+	verifObserve("c04ac", n, wf, len(reps), lg.lines)
+	verifAssert(wf && len(reps) == 5+n+2 && lg.lines == 0, "C04.after-chunk-one-reply-per-command")
+	if wf && len(reps) == 5+n+2 {
+		for i := 4; i < 5+n+1; i++ {
+			verifAssert(reps[i].code == 250, "C04.after-chunk-short-lines-not-refused")
+		}
+		verifAssert(reps[5+n+1].code == 221, "C04.after-chunk-quit-answered")
+	}
+	verifReach("C04.after-chunk-end")
+}
